@@ -64,6 +64,8 @@ type oracles struct {
 	readConf      map[int]map[pb.SystemCtx]map[uint64]bool
 	readWatch     map[int]*readWatch
 	dupReadIndex  int
+	commitTerm    map[uint64]commitRec // index -> term of the entry the shard committed there (first observer wins)
+	commitSeen    map[int][2]uint64    // host -> (incarnation, highest index checked)
 	lastMem       []*memView        // last membership observed per host
 	everRemoved   map[uint64]uint64 // replica id -> ccid at which it was seen removed
 	maxCommitted  uint64
@@ -81,6 +83,8 @@ func newOracles(s *Sim) *oracles {
 	o.memByCCID = map[uint64]*memView{}
 	o.readConf = map[int]map[pb.SystemCtx]map[uint64]bool{}
 	o.readWatch = map[int]*readWatch{}
+	o.commitTerm = map[uint64]commitRec{}
+	o.commitSeen = map[int][2]uint64{}
 	o.everRemoved = map[uint64]uint64{}
 	o.lastMem = make([]*memView, s.cfg.Hosts)
 	o.allowDup = s.ctx.Property != "C01"
@@ -318,6 +322,7 @@ func (o *oracles) afterStep() {
 			}
 		}
 		if quiet {
+			o.checkCommittedTerms(h, eff)
 			o.observeMembership(h, st)
 			if st.Role == "Leader" {
 				o.checkOneChangeAtATime(h, st)
@@ -426,6 +431,54 @@ func (o *oracles) observeMembership(h *Host, st raft.VerifState) {
 		}
 	}
 	o.checkRole(h, st, v, r.Stopped())
+}
+
+type commitRec struct {
+	term    uint64
+	replica uint64
+}
+
+// checkCommittedTerms (C02, state machine safety): two replicas never hold
+// different entries at an index both consider committed. upTo is the replica's
+// commit index capped by what it has durably saved (see maxCommitted). Terms
+// identify entries (one leader per term, C03). Only called when the host has
+// no live task (the log is read through the LogReader).
+func (o *oracles) checkCommittedTerms(h *Host, upTo uint64) {
+	s := o.s
+	r, ok := h.nh.VerifGetReplica(shardID)
+	if !ok || r.Stopped() {
+		return
+	}
+	p, _ := r.Peer().(*raft.Peer)
+	if p == nil {
+		return
+	}
+	seen := o.commitSeen[h.id]
+	if seen[0] != uint64(h.inc) {
+		seen = [2]uint64{uint64(h.inc), 0}
+	}
+	from := seen[1] + 1
+	if upTo >= 24 && from < upTo-24 {
+		from = upTo - 24
+	}
+	for i := from; i <= upTo; i++ {
+		t, err := raft.VerifTermAt(p, i)
+		if err != nil || t == 0 {
+			continue // compacted away or covered by a snapshot only
+		}
+		if rec, ok := o.commitTerm[i]; ok {
+			if rec.term != t {
+				s.ctx.Violate("C02", "committed-entries-differ", "index %d is committed on replica %d with the entry of term %d and on replica %d with the entry of term %d", i, rec.replica, rec.term, h.replicaID, t)
+				return
+			}
+		} else {
+			o.commitTerm[i] = commitRec{term: t, replica: h.replicaID}
+		}
+	}
+	if upTo > seen[1] {
+		seen[1] = upTo
+	}
+	o.commitSeen[h.id] = seen
 }
 
 // checkOneChangeAtATime: membership changes take effect one at a time - a
